@@ -2,7 +2,9 @@
      t5 <cfg> <t0> <op> <op> ...
    and the observation is the transcript: for the initial state and after
    every step  <out>|H:<hosts sorted by key>|M:<MAC entries in slice order>|pt=<ok|panic>|inv=<0|1>
-   joined by ";", plus a final dump "end" (taken after the harness has overwritten its receive buffer).  The notification channel is drained (and ignored) after every step. *)
+   joined by ";", plus a final dump "end" (taken after the harness has overwritten its receive buffer).  The notification channel is drained (and ignored) after every step.
+   Kind t5s (large tables): the same, but the state is dumped only where the history carries the token "S" (and at
+   the end); every other op contributes its output alone. *)
 From PV Require Import Base.Text Model.Tables Model.TablesShow Spec.HostTrackingInv.
 Open Scope string_scope.
 Open Scope N_scope.
@@ -23,7 +25,34 @@ Fixpoint run5 (c : cfg) (s : state) (ops : list pop) : list string :=
       show_step5 (show_out o) s2 :: run5 c s2 r
   end.
 
+Fixpoint run5s (c : cfg) (s : state) (toks : list string) : list string :=
+  match toks with
+  | [] => [show_step5 "end" s]
+  | tk :: r =>
+      if String.eqb tk "S" then show_step5 "S" s :: run5s c s r
+      else match op_of_tok tk with
+           | Some p =>
+               let (s1, o) := step c s (resolve s (debyte c p)) in
+               show_out o :: run5s c (set_chan [] s1) r
+           | None => ["badop"]
+           end
+  end.
+
 Definition dispatch (kind : string) (args : list string) : string :=
+  if String.eqb kind "t5s" then
+    match args with
+    | ctok :: t0 :: optoks =>
+        match cfg_of_tok ctok, Z_of_dec t0 with
+        | Some c, Some t0 =>
+            match new_session c t0 with
+            | Ok s0 => out3 (join ";" (run5s c s0 optoks)) "-" "-"
+            | _ => out3 "panic" "-" "-"
+            end
+        | _, _ => BADARGS
+        end
+    | _ => BADARGS
+    end
+  else
   if String.eqb kind "t5" then
     match args with
     | ctok :: t0 :: optoks =>
